@@ -1,3 +1,4 @@
+import math
 from .nodes import types, expressions, declarations
 
 
@@ -159,10 +160,34 @@ class ConstantExpressionEvaluator:
             op_map["&"] = lambda x, y: x & y
             op_map["^"] = lambda x, y: x ^ y
         else:
-            op_map["/"] = lambda x, y: x / y
+            op_map["/"] = self.float_div
+
+        # These have no value, and the plain python operators would raise
+        # or (for a huge shift count) not come back:
+        if op in ("/", "%") and expr.typ.is_integer and rhs == 0:
+            self.context.error(
+                "Division by zero in constant expression", expr.location
+            )
+        if op in ("<<", ">>") and expr.typ.is_integer:
+            bits = self.context.sizeof(expr.typ) * 8
+            if not 0 <= rhs < bits:
+                self.context.error(
+                    "Shift count out of range in constant expression",
+                    expr.location,
+                )
 
         value = op_map[op](lhs, rhs)
         return value
+
+    @staticmethod
+    def float_div(x, y):
+        """Floating point division, by zero gives infinity or not a number."""
+        try:
+            return x / y
+        except ZeroDivisionError:
+            if x == 0 or x != x:
+                return math.nan
+            return math.copysign(math.inf, x) * math.copysign(1.0, y)
 
     @staticmethod
     def int_div(x, y):
